@@ -218,4 +218,41 @@ class C11(Spec):
         return qs
 
 
-PROPS.update({'C10': C10(), 'C11': C11(), 'C13': C13(), 'C19': C19(), 'C09': C09(), 'C04': C04(), 'C02': C02(), 'C03': C03(), 'C06': C06(), 'C14': C14()})
+OPS_UNITS = ['libjwt/jwt-crypto-ops.c', 'libjwt/jwt-memory.c']
+
+
+class C12(Spec):
+    functions = ['jwt_set_crypto_ops', 'jwt_set_crypto_ops_t', 'jwt_get_crypto_ops', 'jwt_get_crypto_ops_t', 'jwt_init', 'jwt_strcmp']
+
+    def queries(self, tier, bld):
+        m = ['alloc', 'jansson_model', 'env']
+        b = {'name/env length': '<= 9 bytes, all byte values', 'id': 'all int'}
+        return [Query('C12.ops.name', 'ops.c', OPS_UNITS, models=m, defines=['SIDE_NAME'], unwind=12, bounds=b),
+                Query('C12.ops.id', 'ops.c', OPS_UNITS, models=m, defines=['SIDE_ID'], unwind=12, bounds=b),
+                Query('C12.ops.init', 'ops.c', OPS_UNITS, models=m, defines=['SIDE_INIT'], unwind=12, bounds=b)]
+
+
+MAP_UNITS = ['libjwt/jwt-builder.c', 'libjwt/jwt-setget.c', 'libjwt/jwt-memory.c', 'libjwt/jwt.c', 'libjwt/jwt-encode.c', 'libjwt/base64.c']
+
+
+class C15(Spec):
+    functions = ['jwt_builder_header_set', 'jwt_builder_header_get', 'jwt_builder_header_del', 'jwt_builder_claim_set',
+                 'jwt_builder_claim_get', 'jwt_builder_claim_del', 'jwt_header_set', 'jwt_header_get', 'jwt_header_del',
+                 'jwt_claim_set', 'jwt_claim_get', 'jwt_claim_del', '__run_it', '__setter', '__getter', '__deleter',
+                 'jwt_set_int', 'jwt_set_str', 'jwt_set_bool', 'jwt_set_json', 'jwt_get_int', 'jwt_get_str',
+                 'jwt_get_bool', 'jwt_get_json', 'jwt_obj_check']
+
+    def queries(self, tier, bld):
+        qs = []
+        for op, on in enumerate(('set', 'get', 'del')):
+            for tg, tn in enumerate(('bhdr', 'bclaim', 'jhdr', 'jclaim')):
+                qs.append(Query('C15.map.%s.%s' % (on, tn), 'typedmap.c', MAP_UNITS,
+                                models=['alloc', 'jansson_model', 'env', 'provider_stub'],
+                                defines=['VF_FREE_NOOP', 'VJ_DEPTH=1', 'VJ_MAXM=4', 'ONLY_OP=%d' % op, 'ONLY_TARGET=%d' % tg],
+                                unwind=12, budget=600,
+                                bounds={'pre-state': 'any subset of 3 names with values of any JSON type', 'operations': 1,
+                                        'names': 'NULL, empty, two colliding, one new', 'VJ_MAXM': 4}))
+        return qs
+
+
+PROPS.update({'C15': C15(), 'C12': C12(), 'C10': C10(), 'C11': C11(), 'C13': C13(), 'C19': C19(), 'C09': C09(), 'C04': C04(), 'C02': C02(), 'C03': C03(), 'C06': C06(), 'C14': C14()})
